@@ -261,6 +261,12 @@ func checkC07(c *Ctx) {
 	// adds its indexes to the same buffer (up to 1535 entries; found by running stage 1 alone
 	// over one period of alignments)
 	fullTail := overfullLastBufferDocs()
+	// a gap of more than 64 KiB between two structurals (one long string), then enough dense
+	// content for the 16-slot ring to come round: every index word a slot held before must be
+	// overwritten in full (the deltas written into it later are small)
+	for _, gap := range []int{70000, 200000} {
+		fullTail = append(fullTail, []byte(`["`+strings.Repeat("g", gap)+`",`+strings.Repeat("1,", 14000)+`"`+strings.Repeat("h", gap/2)+`",`+strings.Repeat("[],", 6000)+`1]`))
+	}
 	c.Ev.Note(fmt.Sprintf("%d dense documents with an over-full last index buffer", len(fullTail)))
 	ncase += len(fullTail)
 	for i := 0; i < ncase; i++ {
